@@ -223,6 +223,11 @@ impl MultiWriter {
     pub(crate) fn finish(mut self) -> crate::Result<Vec<BlobFile>> {
         let blob_file = Self::consume_writer(self.active_writer, self.descriptor_table.clone())?;
         self.results.extend(blob_file);
+
+        // IMPORTANT: fsync folder on Unix, so the directory entries of the new blob files (and the
+        // removal of an unused, empty one) are durable before a version referencing them is published
+        crate::file::fsync_directory(&self.folder)?;
+
         Ok(self.results)
     }
 }
